@@ -6,7 +6,7 @@ repository's 218 stable tests still pass with it; demo.py exits 0 on the clean t
 import json, os, shutil, subprocess, sys
 prop = sys.argv[1]
 suffix = sys.argv[2] if len(sys.argv) > 2 else 'a'
-src = '/tmp/seed-out/%s' % prop
+src = os.path.join(os.environ.get('SEED_SRC', '/tmp/seed-out'), prop)
 dst = '/verif/seeded/%s-%s' % (prop, suffix)
 work = '/var/tmp/vt-intake-%d' % os.getpid()
 def run(cmd, **kw):
